@@ -389,11 +389,13 @@ def casts(vt, P1):
     targets = {'int': [L64, FLT], 'int64': [INT, DBL], 'float': [DBL, INT], 'double': [FLT, L64]}[ty.name]
     for u in targets:
         fam = 'cast-%s' % u.name
+        nu = n                      # lanes of the result vector
         if not vt.abi.startswith('fixed'):
-            # width-based ABI (generic fallback of sse/avx/avx512): SIMDVector<U,ABI> has a different lane count when sizeof(U)
-            # differs; widening conversions then write all n lanes into the shorter result (candidate defect, own family)
+            # width-based ABI (generic fallback of sse/avx/avx512): SIMDVector<U,ABI> has n*sizeof(T)/sizeof(U) lanes; a widening
+            # conversion converts the lanes that exist in the result and must not write past it (it did: fixed in /repo, own family)
             if u.bits <= ty.bits: continue
             fam = 'cast-width-abi-%s' % u.name
+            nu = max(1, n * ty.bits // u.bits)
         a = Buf('a', ty, n, 'in'); o = Buf('o', u, n, 'out')
         # conversions keep their real meaning in SYM; float -> int is specified where the value is representable
         req = []
@@ -403,7 +405,7 @@ def casts(vt, P1):
                 x = E.inp(a, i)
                 req += [x.cmp('gt', E.const(-lim, ty)), x.cmp('lt', E.const(lim, ty))]
         out.append(mk(fam, vt, P1, '    V va(a,false);\n    SIMDVector<%s,%s> r = va.cast<%s>();\n    r.store(o,false);' % (CPPT[u.name], vt.cabi, CPPT[u.name]),
-                      [a, o], [(o, i, E.inp(a, i).cast(u)) for i in range(n)], requires=req))
+                      [a, o], [(o, i, E.inp(a, i).cast(u)) for i in range(min(n, nu))], requires=req))
     return out
 
 def all_families(vt, P1, P0, full, rng):
